@@ -1010,7 +1010,7 @@ func ChildC13(rep *report.Report, tier, part string) {
 		// written, the application resets the client (and hands over a request before / after it connects again):
 		// every operation of the broken session is pending or resulted when the failure is reported, and the new
 		// session carries and accounts for the new operations only (the C14 scenario, with the C13 oracles)
-		for _, fc := range []faultCase{{"send", 3, codes.Unavailable, "reset"}, {"send", 2, codes.Unavailable, "reset+queue-before-connect"}, {"recv", 3, codes.Unavailable, "reset+queue-before-connect"}} {
+		for _, fc := range []faultCase{{"send", 3, codes.Unavailable, "reset"}, {"send", 2, codes.Unavailable, "reset+queue-before-connect"}, {"recv", 3, codes.Unavailable, "reset+queue-before-connect"}, {"send+late-recv", 1, codes.Unavailable, "reset"}, {"send+late-recv", 3, codes.Unavailable, "reset"}} {
 			res := mc.DFS(mc.SchedConfig{Name: part + "/" + fc.String(), Body: faultBody(fc), Check: checkFault(fc), Outcome: outcome, Bound: 1, SwitchCost: 1, Deadline: dl})
 			merge(rep, "accounting/"+part+"/"+fc.String(), res, 1)
 		}
